@@ -25,7 +25,42 @@ SigConv == { <<3, 1, 5>>, <<9, 9, 9, 6>>, <<3, 1, 4, 1, 6>> }
 USigConv == { <<2, 9>>, <<1, 7, 9>> }
 ExpConv == {-3, 0, 2}
 ConvAll == ConvTable
+ConvTen == { c \in ConvTable : c.from \in {"km", "cm", "m3/mol/s", "1/M/s", "mol/m3", "kJ/mol", "g", "hour", "min"} }
 ConvTwo == { CV("km", "m", 3), CV("1/M/s", "m3/mol/s", -3) }
 Both == {FALSE, TRUE}
 Pos == {FALSE}
+
+\* option records
+O(api, impl, fsty, xty, uname, ucv) == [api |-> api, impl |-> impl, fsty |-> fsty, xty |-> xty, uname |-> uname, ucv |-> ucv]
+Opts_num == { O("number", TRUE, "g", "float", "", NoConv), O("rxnstring", TRUE, "g", "float", "", NoConv),
+              O("rxnstring", FALSE, "g", "float", "", NoConv), O("number", FALSE, "e", "float", "", NoConv),
+              O("number", FALSE, "g", "int", "", NoConv), O("number", FALSE, "g", "npfloat", "", NoConv),
+              O("number", TRUE, "g", "nparray", "", NoConv), O("number", FALSE, "g", "npint", "", NoConv),
+              O("rxnstring", FALSE, "g", "npfloat", "", NoConv), O("rxnstring", TRUE, "g", "int", "", NoConv),
+              O("number", FALSE, "e", "npfloat", "", NoConv) }
+Opts_unc == { O("number", FALSE, "g", "float", "km", ConvOf("m", "km")), O("number", FALSE, "g", "float", "s", ConvOf("hour", "s")),
+              O("number", TRUE, "g", "float", "km", ConvOf("cm", "m")), O("number", FALSE, "g", "npfloat", "min", ConvOf("hour", "min")),
+              O("number", FALSE, "g", "float", "kg", NoConv) }
+Opts_all == Opts_num \cup Opts_unc
+Opts_cover == { O("number", TRUE, "g", "float", "", NoConv), O("number", FALSE, "g", "float", "km", ConvOf("cm", "m")) }
+SigOpt == { <<3, 1, 4, 1, 6>>, <<9, 9, 9, 9, 9, 6>>, <<1>> }
+ExpOpt == {-7, 0, 4}
+USigOpt == { <<2, 9>> }
+ConvOpt == { ConvOf("km", "m"), ConvOf("hour", "s") }
+SL_opts_q == [Signs |-> Both, Sigs |-> SigOpt, Exps |-> ExpOpt, Precs |-> {2, 3, 5}, UncSigs |-> USigOpt, UncOffs |-> {2, 5},
+              UncPrecs |-> {1, 2}, Units |-> {}, Convs |-> ConvOpt, UncSrcs |-> {"arg", "attr"}, RomanMax |-> 60,
+              Opts |-> Opts_all, RomanTypes |-> {"int", "npint"}]
+
+\* the slices (one record per former configuration file)
+SL_conv_q == [Signs |-> Both, Sigs |-> SigConv, Exps |-> ExpConv, Precs |-> {2, 5}, UncSigs |-> USigConv, UncOffs |-> {3, 5}, UncPrecs |-> {1, 2, 3}, Units |-> {}, Convs |-> ConvTen, UncSrcs |-> {"arg", "attr"}, RomanMax |-> 0, Opts |-> {}, RomanTypes |-> {"int"}]
+SL_cover == [Signs |-> Both, Sigs |-> SigCover, Exps |-> ExpCover, Precs |-> {1, 2}, UncSigs |-> USigCover, UncOffs |-> {1, 3}, UncPrecs |-> {1, 2}, Units |-> {"m/s"}, Convs |-> ConvTwo, UncSrcs |-> {"arg", "attr"}, RomanMax |-> 30, Opts |-> Opts_cover, RomanTypes |-> {"int"}]
+SL_decades_q == [Signs |-> Both, Sigs |-> SigEdge, Exps |-> ExpStep, Precs |-> {1, 2, 3, 4}, UncSigs |-> SigEdge, UncOffs |-> {}, UncPrecs |-> {}, Units |-> {}, Convs |-> {}, UncSrcs |-> {"arg"}, RomanMax |-> 0, Opts |-> {}, RomanTypes |-> {"int"}]
+SL_decades_t == [Signs |-> Both, Sigs |-> SigEdge, Exps |-> ExpAll, Precs |-> {1, 2, 3, 4}, UncSigs |-> SigEdge, UncOffs |-> {}, UncPrecs |-> {}, Units |-> {}, Convs |-> {}, UncSrcs |-> {"arg"}, RomanMax |-> 0, Opts |-> {}, RomanTypes |-> {"int"}]
+SL_roman == [Signs |-> Pos, Sigs |-> Sig1, Exps |-> {}, Precs |-> {}, UncSigs |-> SigEdge, UncOffs |-> {}, UncPrecs |-> {}, Units |-> {}, Convs |-> {}, UncSrcs |-> {"arg"}, RomanMax |-> 3999, Opts |-> {}, RomanTypes |-> {"int"}]
+SL_small_q == [Signs |-> Both, Sigs |-> Sig2, Exps |-> ExpSmall, Precs |-> {1, 2, 3}, UncSigs |-> SigEdge, UncOffs |-> {}, UncPrecs |-> {}, Units |-> {}, Convs |-> {}, UncSrcs |-> {"arg"}, RomanMax |-> 0, Opts |-> {}, RomanTypes |-> {"int"}]
+SL_small_t == [Signs |-> Both, Sigs |-> Sig3, Exps |-> ExpSmall, Precs |-> {1, 2, 3, 4}, UncSigs |-> SigEdge, UncOffs |-> {}, UncPrecs |-> {}, Units |-> {}, Convs |-> {}, UncSrcs |-> {"arg"}, RomanMax |-> 0, Opts |-> {}, RomanTypes |-> {"int"}]
+SL_uncert_q == [Signs |-> Both, Sigs |-> SigUnc, Exps |-> ExpUnc, Precs |-> {}, UncSigs |-> USig, UncOffs |-> {0, 1, 3, 8}, UncPrecs |-> {1, 2, 3}, Units |-> {}, Convs |-> {}, UncSrcs |-> {"arg"}, RomanMax |-> 0, Opts |-> {}, RomanTypes |-> {"int"}]
+SL_uncert_t == [Signs |-> Both, Sigs |-> SigUnc, Exps |-> ExpUncT, Precs |-> {}, UncSigs |-> USig, UncOffs |-> {0, 1, 2, 3, 4, 5, 6, 7, 8}, UncPrecs |-> {1, 2, 3, 4}, Units |-> {}, Convs |-> {}, UncSrcs |-> {"arg"}, RomanMax |-> 0, Opts |-> {}, RomanTypes |-> {"int"}]
+AllSlices == ("conv_q" :> SL_conv_q) @@ ("cover" :> SL_cover) @@ ("decades_q" :> SL_decades_q) @@ ("decades_t" :> SL_decades_t) @@ ("roman" :> SL_roman) @@ ("small_q" :> SL_small_q) @@ ("small_t" :> SL_small_t) @@ ("uncert_q" :> SL_uncert_q) @@ ("uncert_t" :> SL_uncert_t) @@ ("opts_q" :> SL_opts_q)
+QuickNames == {"small_q", "decades_q", "uncert_q", "conv_q", "opts_q", "roman"}
 =============================================================================
